@@ -61,7 +61,7 @@ func runRedef(c *Ctx) {
 			}
 		})
 		flagged := false
-		for _, l := range g9.Lits {
+		for _, l := range p.LitsInter(g9.Call.Block()) {
 			if l.Kind == "bool" && l.Pol {
 				if fr, ok := core.AsFieldLoad(l.Of); ok && fr.Owner == "argBuilder" && fr.Field == flagField && flagField != "" {
 					flagged = true
@@ -72,14 +72,15 @@ func runRedef(c *Ctx) {
 			"candidate-input root edges are added only in redefine mode (the flag the planner sets)", fmt.Sprintf("flag field=%q guarded=%v", flagField, flagged))
 		// the filter call and the nil check
 		var fcall *ssa.Call
-		for _, ci := range core.Calls(gb) {
+		gfn := g9.Fn // the function that adds the edge: the graph builder or a helper extracted from it
+		for _, ci := range core.Calls(gfn) {
 			cc := ci.Common()
 			if !cc.IsInvoke() && cc.StaticCallee() == nil && core.TypeStr(cc.Value.Type()) == "FilterFunc" {
 				fcall, _ = ci.(*ssa.Call)
 			}
 		}
 		if fcall == nil {
-			c.R.Add("REDEF-R1", "graphBuilder|filter-consulted", "graphBuilder", g9.Pos, false, "the input filter is consulted for candidate inputs", "no call of a FilterFunc in the graph builder")
+			c.R.Add("REDEF-R1", "graphBuilder|filter-consulted", "graphBuilder", g9.Pos, false, "the input filter is consulted for candidate inputs", "no call of a FilterFunc where the root edge is added")
 		} else {
 			allowed := map[[2]*ssa.BasicBlock]bool{}
 			// filter(value) true
@@ -88,7 +89,7 @@ func runRedef(c *Ctx) {
 			}
 			// filter == nil : comparisons of the filter value (loaded from the builder) with nil
 			fv := fcall.Common().Value
-			core.Instrs(gb, func(in ssa.Instruction) {
+			core.Instrs(gfn, func(in ssa.Instruction) {
 				b, ok := in.(*ssa.BinOp)
 				if !ok || !(b.Op == token.NEQ || b.Op == token.EQL) {
 					return
